@@ -335,7 +335,7 @@ NOLINK = {'target': '', 'rel': '', 'title': [], 'tstar': [], 'anchor': [], 'type
 NOCA = {'value': '', 'exp': -1, 'expkind': '', 'off': 0, 'ma': {'kind': 'none', 'num': 0, 'frac': 0}, 'domain': '',
         'path': '', 'secure': 'none', 'httponly': True, 'ss': {'b': '', 'c': 0}, 'partitioned': False}
 NOUA = {'samesite': '', 'domain': '', 'path': ''}
-NOLAW = {'cps': [], 'orig': [], 'ok': True, 'dec': [], 'dtype': '', 'deci': 0, 'link': NOLINK, 'text': ''}
+NOLAW = {'cps': [], 'uricps': [], 'orig': [], 'ok': True, 'dec': [], 'dtype': '', 'deci': 0, 'link': NOLINK, 'text': ''}
 
 
 _COMMON = ('op', 'err', 'exc', 'res', 'after')
@@ -345,6 +345,34 @@ EVENT_FIELDS = {
     'link': _COMMON + ('link', 'law'), 'set_cookie': _COMMON + ('ck', 'ca'),
     'unset_cookie': _COMMON + ('ck', 'ua', 't0', 't1'),
 }
+
+
+# every documented way to hand "an iterable of [name, value] pairs, or a dict-like object" to set_headers();
+# the form is not part of the specification (the outcome must not depend on it)
+BULK_FORMS = ('dict', 'list', 'lists', 'tuple', 'items', 'genexp', 'zip', 'iter')
+
+
+def bulk_argument(items, form):
+    distinct = len({k for k, _ in items}) == len(items)
+    if form in ('dict', 'items') and not distinct:
+        form = 'genexp'         # a repeated spelling would keep its first position in a dict
+    if form == 'dict':
+        return dict(items)
+    if form == 'items':
+        return dict(items).items()
+    if form == 'list':
+        return list(items)
+    if form == 'lists':
+        return [[k, v] for k, v in items]
+    if form == 'tuple':
+        return tuple(items)
+    if form == 'genexp':
+        return ((k, v) for k, v in items)
+    if form == 'zip':
+        return zip([k for k, _ in items], [v for _, v in items])
+    if form == 'iter':
+        return iter(list(items))
+    raise MachineryError('unknown bulk form %r' % form)
 
 
 def call(op, **kw):
@@ -419,7 +447,7 @@ def _do(resp, c, ev):
         elif op == 'set_headers':
             items = [(render(it['n']), it['v']) for it in c['items']]
             # a dict only when the spellings are pairwise distinct (a repeated key would keep its first position)
-            resp.set_headers(dict(items) if c['asdict'] and len({k for k, _ in items}) == len(items) else items)
+            resp.set_headers(bulk_argument(items, c.get('form', 'dict' if c['asdict'] else 'list')))
         elif op == 'typed':
             setattr(resp, c['p'], typed_value(c['p'], c['a']))
         elif op == 'typed_get':
@@ -430,7 +458,8 @@ def _do(resp, c, ev):
             resp.append_link(c['link']['target'], c['link']['rel'], **link_kwargs(c['link']))
             after = resp.get_header('Link') or ''
             part = after[len(before) + 2:] if before is not None and after.startswith(before + ', ') else after
-            law = dict(NOLAW, cps=cps(part), text=part, orig=cps(c['link']['title'][0]) if c['link']['title'] else [])
+            law = dict(NOLAW, cps=cps(part), text=part, orig=cps(c['link']['title'][0]) if c['link']['title'] else [],
+                       uricps=cps(part[1:part.index('>')]) if part.startswith('<') and '>' in part else cps(part))
             try:
                 ls = parse_links(part)
                 if len(ls) != 1:
@@ -459,7 +488,7 @@ def _do(resp, c, ev):
         text = getattr(resp, c['p'])
         text = '' if text is None else text
         a = dict(c['a'], text=text)
-        law = dict(NOLAW, cps=cps(text), text=text)
+        law = dict(NOLAW, cps=cps(text), uricps=cps(text), text=text)
         try:
             if c['p'] in ('expires', 'last_modified'):
                 law['deci'] = http_date_epoch(text)
@@ -744,7 +773,7 @@ R_BASES = ['x-a', 'x-b', 'etag', 'link', 'location', 'content-type', 'vary', 'co
            'x-request-id', 'www-authenticate', 'set-cookie', 'set-cookie']
 R_VALUES = ['v1', 'v2', 'a, b', 'caf\xe9', 'x=1; y', '"q"', '', 'text/html; charset=utf-8', '\xa0\xff', 'W/"1"']
 R_RAWCOOKIES = ['r1=x; Path=/r', 'r2=y', 'r1=z; HttpOnly', 'r3="q q"; Max-Age=5']
-R_BLOCKS = ['a', 'b.txt', '"', '\\', ' ', '%', '%41', '/', '<', '>', ',', ';', "'", '+', '=', '\xe9', '€', '\U0001f600',
+R_BLOCKS = ['a', 'b.txt', '"', '\\', ' ', '%', '%41', '%20', '%-5', '%+F', '%4', '%zz', '/', '<', '>', ',', ';', "'", '+', '=', '\xe9', '€', '\U0001f600',
             '\r\n', '\t', '\x7f', 'Ж', 'z', '?q=1&r', '#f', '[', ']']
 R_COOKIE_NAMES = ['sid', 'SID', 'a.b', 'x-y_z', 't0k']
 R_COOKIE_VALUES = ['v1', 'v2', 'a b', 'x;y', 'q"q', 'b\\s', 'k=v', '', 'c,d', '1234567890abcdef', ' lead', '\t']
@@ -875,7 +904,7 @@ def random_history(rng):
                     n = rname(rng)
                     if n['b'] != 'set-cookie':
                         items.append({'n': n, 'v': rng.choice(R_VALUES)})
-            calls.append(call('set_headers', items=items, asdict=rng.random() < 0.5))
+            calls.append(call('set_headers', items=items, form=rng.choice(BULK_FORMS)))
         elif t < 0.70:
             p, a = rtyped(rng)
             calls.append(call('typed', p=p, a=a))
@@ -990,10 +1019,14 @@ def run(ctx):
     behaviours = {digest(b): b for b in rs.json}
     if len(behaviours) < nsim:
         raise MachineryError('behaviour export produced only %d behaviours' % len(behaviours))
-    replayed = mism = 0
+    replayed = mism = nbulk = 0
     pending = []
     for b in behaviours.values():
         calls = [e['call'] for e in b['ev']]
+        for c in calls:
+            if c['op'] == 'set_headers':          # the container form is the harness' choice: rotate through all of them
+                c['form'] = BULK_FORMS[nbulk % len(BULK_FORMS)]
+                nbulk += 1
         for iface in ('wsgi', 'asgi'):
             trace = execute(iface, b['sd'], calls)
             case = {'origin': 'spec-behaviour', 'iface': iface, 'sd': b['sd'], 'calls': calls}
@@ -1024,7 +1057,9 @@ def run(ctx):
         nenc += 1
         ev = trace['ev'][0]
         got = enc_decoded(c, ev)
-        if ev['exc'] or got != c['dec'] or any(x > 127 for x in ev['law']['cps']):
+        if ev['exc'] or got != c['dec'] or any(x > 127 for x in ev['law']['cps']) or (
+                c['helper'] in ('location', 'content_location', 'link_target')
+                and re.search(r'%(?![0-9A-Fa-f]{2})', ''.join(map(chr, ev['law']['uricps'])))):
             pending.append((k, ('P:decode', '%s(%r): emitted %r decodes to %r' % (
                 c['helper'], ''.join(map(chr, c['s'])), ev['law']['text'], None if got is None else ''.join(map(chr, got)))), case))
     ctx.traces_validated += nenc
